@@ -665,7 +665,47 @@ func genLegalInstr(r *rand.Rand, mode, m int64) []int64 {
 
 // genCli emits kind 34: [34; use88 s p c l F r preset; nprogs; style1; prog1; style2; prog2]
 // Small battle programs (imps, dwarfs, random code) so that outcomes vary.
+// forkAndLate: a warrior that keeps splitting against one that waits 6*coresize cycles and then overwrites both of
+// its cells: the outcome depends on how many tasks the first one holds by then, i.e. on the -p option, also
+// when it is larger than the core (-s 100 -l 10 -F 50)
+func forkAndLate(p, c int64) []int64 {
+	lit := func(n int64) []int64 { return []int64{0, n} }
+	neg := func(n int64) []int64 { return []int64{3, 1, 0, n} }
+	ins := func(op, am int64, a []int64, bm int64, b []int64) []int64 {
+		out := append([]int64{0, 0, op, -1, am}, a...)
+		if b == nil {
+			return append(out, 0)
+		}
+		return append(append(out, 1, bm), b...)
+	}
+	prog := func(items [][]int64) []int64 {
+		out := []int64{int64(len(items))}
+		for _, it := range items {
+			out = append(out, it...)
+		}
+		return append(out, 0, 0, -1, -1)
+	}
+	fork := prog([][]int64{ins(15, -1, lit(0), 0, nil), ins(11, -1, neg(1), 0, nil)})
+	var late [][]int64
+	for i := 0; i < 6; i++ {
+		late = append(late, ins(14, -1, lit(0), 1, lit(0))) // djn 0, #0
+	}
+	late = append(late, ins(1, -1, lit(3), -1, neg(56)), ins(1, -1, lit(2), -1, neg(56)), ins(11, -1, lit(0), 0, nil), ins(0, 1, lit(0), 1, lit(0)))
+	line := []int64{34, 0, 100, p, c, 10, 50, 1, 0, 2, 7}
+	line = append(line, fork...)
+	line = append(line, 9)
+	return append(line, prog(late)...)
+}
+
 func genCli(w *bufio.Writer, r *rand.Rand, n int) {
+	if n >= 100 {
+		for _, p := range []int64{50, 100, 150, 300} {
+			for _, c := range []int64{700, 750, 850} {
+				wr(w, forkAndLate(p, c))
+				n--
+			}
+		}
+	}
 	for k := 0; k < n; k++ {
 		use88 := int64(r.Intn(4) / 3)
 		ln := int64(3 + r.Intn(6))
